@@ -19,6 +19,9 @@ import (
 type vfC18Case struct {
 	Seed []byte   `json:"seed"`
 	Path []uint32 `json:"path"`
+	// Sibs[d] are derived from the same parent *object* before the path child of step d (a key object must give
+	// the same children whatever was derived from it before)
+	Sibs [][]uint32 `json:"sibs,omitempty"`
 }
 
 var vfEdgeIdx = []uint32{0, 1, 2, 0x7fffffff, 0x7ffffffe, 0x80000000, 0x80000001, 0xffffffff, 44 + 0x80000000, 297 + 0x80000000, 1000000000}
@@ -43,6 +46,15 @@ func vfGenC18(t *rapid.T) vfC18Case {
 	depth := rapid.SampledFrom([]int{1, 1, 2, 2, 3, 3, 4, 5, 6, 8, 8, 40}).Draw(t, "depth")
 	for i := 0; i < depth; i++ {
 		c.Path = append(c.Path, vfGenIdx(t, "idx"))
+	}
+	if depth <= 8 {
+		for i := 0; i < depth+2; i++ {
+			var sib []uint32
+			for j := rapid.IntRange(0, 2).Draw(t, "nsib"); j > 0; j-- {
+				sib = append(sib, vfGenIdx(t, "sib"))
+			}
+			c.Sibs = append(c.Sibs, sib)
+		}
 	}
 	if rapid.IntRange(0, 3).Draw(t, "steer") == 0 {
 		k, err := vlib.RefMaster(c.Seed)
@@ -121,6 +133,21 @@ func vfC18Run(c vfC18Case, ctx *vlib.Ctx) *vlib.Failure {
 		where := fmt.Sprintf("seed %x path %v step %d (index %d)", c.Seed, c.Path[:d+1], d, i)
 		hardened := i >= HardenedKeyStart
 		short := r.Priv.BitLen() <= 248
+		if d < len(c.Sibs) {
+			for _, si := range c.Sibs[d] {
+				sk, serr := k.Child(si)
+				sr, srerr := r.Child(si, false)
+				if serr != nil || srerr != nil {
+					continue
+				}
+				if si >= HardenedKeyStart && short {
+					continue // recorded deviation, judged on the main path only
+				}
+				if f := vfEqKey(where+fmt.Sprintf(" sibling %d", si), sk, sr); f != nil {
+					return f
+				}
+			}
+		}
 		ck, cerr := k.Child(i)
 		cr, crerr := r.Child(i, false)
 		if crerr == vlib.ErrRefInvalidChild || cerr == ErrInvalidChild {
